@@ -614,6 +614,37 @@ def rw_result_combinators(text, eff, log):
     return text
 
 
+def rw_ufcs_ext(text, log):
+    """R27 (automatic): a fully qualified call of an extension-trait method, `[std::os::unix::fs::]MetadataExt::blocks(&meta)`, is the method
+    call `meta.blocks()` (the stand-ins carry the extension methods as inherent methods)."""
+    n = 0
+    while True:
+        st = rtok.sig(rtok.lex(text))
+        hit = None
+        for i in range(len(st) - 4):
+            if st[i][0] == 'ident' and st[i][1] in ('MetadataExt', 'PermissionsExt', 'FileTypeExt', 'OpenOptionsExt', 'FileExt') and st[i + 1][1] == '::' \
+                    and st[i + 2][0] == 'ident' and st[i + 3][1] == '(' and st[i + 4][1] == '&':
+                hit = i
+                break
+        if hit is None:
+            break
+        i = hit
+        a = i
+        while a >= 2 and st[a - 1][1] == '::' and st[a - 2][0] == 'ident':
+            a -= 2
+        close = rtok.match_close(st, i + 3)
+        parts = _split_args(st, i + 3, close)
+        recv = text[st[parts[0][0] + 1][2]:st[parts[0][1] - 1][3]]
+        if recv.startswith('mut '):
+            recv = recv[4:]
+        rest = ', '.join(text[st[x][2]:st[y - 1][3]] for x, y in parts[1:])
+        text = _replace_spans(text, [(st[a][2], st[close][3], '(%s).%s(%s)' % (recv, st[i + 2][1], rest))])
+        n += 1
+    if n:
+        log.append('R27 %d fully qualified extension-trait call(s) `Ext::m(&x, ..)` -> `x.m(..)`' % n)
+    return text
+
+
 def rw_std_prefix(text, log):
     """R24 (automatic): a fully qualified `std::fs::f(..)` / `std::io::..` / `std::cmp::..` / `std::thread::..` names the same item as the
     `fs::f` the file imports; the stand-ins live in modules of those names, so the `std::` prefix is dropped."""
@@ -1369,6 +1400,7 @@ def build_fn(fs, repo, effectful, table_keys, canary=False):
     text = rw_result_combinators(text, (set(effectful) | set(table_keys) | set(fs.extra_effectful)) - set(fs.not_effectful), log)
     text = rw_closure_underscore(text, log)
     text = rw_matches(text, log)
+    text = rw_ufcs_ext(text, log)
     text = rw_no_panic(text, log)
     text = rw_std_prefix(text, log)
     text = rw_loop_break_head(text, log)
